@@ -192,6 +192,105 @@ def gate_monitor(c: dict, obs: dict, fail: Any) -> None:
 
 
 # ----------------------------------------------------------------------------------------------
+# D-tie: application.apply() — which resourceVersion is reported as the operator's last write
+# ----------------------------------------------------------------------------------------------
+def apply_cases() -> list[dict]:
+    out = []
+    for patch, delays, press, r1, r2 in itertools.product(
+            ('empty', 'content', 'fns'), (None, [0], [-8], [4], [16, 4], [16], [4808]),
+            ('never', 'already', 'during'), (True, False), (True, False)):
+        out.append(dict(patch=patch, delays=delays, press=press, r1=r1, r2=r2))
+    return out
+
+
+def run_apply_case(c: dict) -> dict:
+    from kopf._cogs.aiokits import aiotime
+    from kopf._cogs.clients import patching
+    from kopf._cogs.configs import configuration
+    from kopf._cogs.structs import bodies, patches
+    from kopf._core.actions import application
+    for name in ('apply', 'patch_and_check', 'patching', 'aiotime'):
+        if not hasattr(application, name):
+            raise qd.ObservationMissing(f'application.{name}')
+    settings = configuration.OperatorSettings()
+    raw_body = {'apiVersion': 'kv.test/v1', 'kind': 'Thing', 'metadata': {'name': 'x', 'namespace': 'ns', 'uid': 'u0', 'resourceVersion': '5'}}
+    body = bodies.Body(raw_body)
+    patch = patches.Patch({'status': {'x': 1}} if c['patch'] == 'content' else {},
+                          fns=[lambda b: None] if c['patch'] == 'fns' else [])
+    obs: dict[str, Any] = {'requests': [], 'sleep': None}
+    loop = vloop.new_loop(start=NOW8 / 8)
+    responses = ['31' if c['r1'] else None, '32' if c['r2'] else None]
+    if c['patch'] == 'empty':
+        responses = responses[1:]
+
+    async def fake_patch_obj(**kw: Any) -> Any:
+        n = len(obs['requests'])
+        obs['requests'].append({'t': loop.time(), 'touch': 'touch-dummy' in repr(dict(kw['patch']))})
+        r = responses[n] if n < len(responses) else '39'
+        return ({'metadata': {'resourceVersion': r}} if r is not None else None), None
+
+    real_sleep = aiotime.sleep
+
+    async def sleep_spy(delays: Any, wakeup: Any = None) -> Any:
+        obs['sleep'] = delays
+        return await real_sleep(delays, wakeup=wakeup)
+
+    saved = [(patching, 'patch_obj', patching.patch_obj), (aiotime, 'sleep', aiotime.sleep)]
+    patching.patch_obj = fake_patch_obj
+    aiotime.sleep = sleep_spy
+    logger = types.SimpleNamespace(debug=lambda *a, **k: None, info=lambda *a, **k: None, warning=lambda *a, **k: None)
+    try:
+        with vloop.running(loop):
+            pressure = asyncio.Event()
+            if c['press'] == 'already':
+                pressure.set()
+            elif c['press'] == 'during':
+                loop.call_at((NOW8 + 2) / 8, pressure.set)
+            task = loop.spawn(application.apply(
+                settings=settings, resource=None, body=body, patch=patch,
+                delays=[] if c['delays'] is None else [d / 8 for d in c['delays']], logger=logger, stream_pressure=pressure))
+            loop.run_until(task.done, NOW8 / 8 + 2000)
+            if not task.done():
+                obs['error'] = 'did not finish'
+            elif task.exception() is not None:
+                obs['error'] = repr(task.exception())
+            else:
+                applied, rv, _remaining = task.result()
+                obs.update(applied=bool(applied), rv=rv)
+    finally:
+        for o, n, v in saved:
+            setattr(o, n, v)
+        vloop.close_loop(loop)
+    return obs
+
+
+def apply_term(c: dict, obs: dict) -> tuple[str, str]:
+    delay = None if c['delays'] is None else min(c['delays'])
+    # interrupted iff the sleep is entered and the pressure is (or gets) set before it ends — from the set-up, not observed
+    interrupted = c['press'] == 'already' or (c['press'] == 'during')
+    r1 = '31' if c['r1'] else None
+    r2 = '32' if c['r2'] else None
+    a = f"(mkA {cq.cbool(c['patch'] != 'empty')} {copt_z(delay)} {cq.cbool(interrupted)} {copt_s(r1)} {copt_s(r2)})"
+    slept = None if obs['sleep'] is None else e8(obs['sleep'])
+    exp = f"({copt_s(obs['rv'])}, {cq.cnat(len(obs['requests']))}, {cq.cbool(obs['applied'])}, {copt_z(slept)})"
+    return f'apply_obs_eqb (apply_case {a}) {exp}', f'apply_case {a}'
+
+
+def apply_monitor(c: dict, obs: dict, fail: Any) -> None:
+    """Whatever was sent last is what the worker must be told to wait for."""
+    sent = obs['requests']
+    responses = (['31' if c['r1'] else None] if c['patch'] != 'empty' else []) + ['32' if c['r2'] else None]
+    if sent:
+        want = responses[len(sent) - 1]
+        if obs['rv'] != want:
+            fail("apply() sent a PATCH but does not report the resourceVersion of its last response: the worker cannot "
+                 "wait for the operator's own last write", 'last-write-not-reported',
+                 observed={'requests': len(sent), 'last_is_touch': sent[-1]['touch'], 'reported': obs['rv']}, expected=want)
+    elif obs['rv'] is not None:
+        fail('apply() reports a resourceVersion although nothing was sent', 'phantom-write', observed=obs['rv'])
+
+
+# ----------------------------------------------------------------------------------------------
 # T-tie + worker-level monitor: the real worker under the C01 driver
 # ----------------------------------------------------------------------------------------------
 def worker_scenarios(r: random.Random, nrandom: int) -> list[tuple[dict, list[tuple], str]]:
@@ -340,7 +439,14 @@ class CycleDriver(qd.Driver):
 
     def __init__(self, cfg: qd.Config, script: list[tuple]) -> None:
         super().__init__(cfg)
-        self.script = list(script)          # per processor call: (carried_patch, handler_patches, duration_eighths)
+        self.script = [tuple(x[:3]) for x in script]   # per processor call: (carried_patch, handler_patches, duration_eighths)
+        self.cycle_extra = [tuple(x[3:5]) if len(x) >= 5 else (None, 0) for x in script]   # (handler delay, PATCH latency) in eighths
+        self.writes: dict[int, list[tuple]] = collections.defaultdict(list)     # per uid: (version, response time, is_touch)
+        self.last_write_by_uid: dict[int, tuple[str, float]] = {}
+        self.runs_vs_writes: dict[int, list[tuple]] = collections.defaultdict(list)
+        self.misreports: list[dict] = []
+        self.latency8 = 0
+        self.cur_uid = 0
         self.ncall = 0
         self.steps_by_uid: dict[int, list[dict]] = collections.defaultdict(list)
         self.runs_by_uid: dict[int, list[tuple]] = collections.defaultdict(list)
@@ -378,6 +484,26 @@ class CycleDriver(qd.Driver):
 
         self._patch(processing, '_detect_causes', detect)
         self._patch(processing, 'process_changing_cause', changing_stub)
+        from kopf._cogs.clients import patching
+        from kopf._core.actions import application
+        for name in ('apply', 'patch_and_check', 'patching'):
+            if not hasattr(application, name):
+                raise qd.ObservationMissing(f'application.{name}')
+        self.application = application
+
+        async def fake_patch_obj(**kw: Any) -> Any:
+            # the request is in flight for `latency`; the server applies it at the end (a foreign edit made meanwhile
+            # gets a LOWER version); the resulting event is queued for in-order delivery like every server-side edit
+            u = int(str(kw['name'])[1:])
+            if drv.latency8:
+                await asyncio.sleep(drv.latency8 / 8)
+            drv.rv_counter += 1
+            rvp = str(drv.rv_counter)
+            drv.unechoed[u].append(rvp)
+            drv.writes[u].append((rvp, drv.loop.time(), 'touch-dummy' in repr(dict(kw['patch']))))
+            return {'metadata': {'resourceVersion': rvp}}, None
+
+        self._patch(patching, 'patch_obj', fake_patch_obj)
 
     async def processor(self, *, raw_event: Any, stream_pressure: Any = None, resource_indexed: Any = None,
                         operator_indexed: Any = None, consistency_time: Any = None) -> Any:
@@ -406,11 +532,21 @@ class CycleDriver(qd.Driver):
         ran = ctx['ran_at'] is not None
         if dur8:
             await asyncio.sleep(dur8 / 8)
-        patched = None
-        if carried or (ran and handler_patches):
-            self.rv_counter += 1
-            patched = str(self.rv_counter)
-            self.unechoed[u].append(patched)
+        # the effects of the cycle go through the REAL application.apply() -> patch_and_check() -> (fake) patch_obj():
+        # a handler that "patches" adds content; a handler that is "delayed" (TemporaryError / backoff) gives a delay
+        if ran and handler_patches:
+            patch.setdefault('status', {})['handled'] = self.ncall
+        delay8, lat8 = self.cycle_extra[(self.ncall - 1) % len(self.cycle_extra)] if self.cycle_extra else (None, 0)
+        self.latency8 = lat8
+        self.cur_uid = u
+        nreq0 = len(self.writes[u])
+        applied, reported, _ = await self.application.apply(
+            settings=self.settings, resource=self.resource, body=body, patch=patch,
+            delays=[delay8 / 8] if (ran and delay8 is not None) else [], logger=logger, stream_pressure=stream_pressure)
+        sent = self.writes[u][nreq0:]
+        patched = sent[-1][0] if sent else None          # the harness's truth: the last write observed at the fake API
+        if reported != patched:
+            self.misreports.append({'uid': u, 'reported': reported, 'last_write': patched, 'touch': sent[-1][2] if sent else None})
         end = self.loop.time()
         if pressure_at_entry:
             press = begin
@@ -422,11 +558,14 @@ class CycleDriver(qd.Driver):
                                      'end': end, 'ct': consistency_time, 'gate_left': gate_left})
         if ran:
             self.runs_by_uid[u].append((ctx['ran_at'], rv, self.last_by_uid.get(u)))
+            self.runs_vs_writes[u].append((ctx['ran_at'], rv, self.last_write_by_uid.get(u)))
         if patched is not None and self.settings.persistence.consistency_timeout:
             self.last_by_uid[u] = (patched, end)
+        if sent:
+            self.last_write_by_uid[u] = (sent[-1][0], sent[-1][1])     # (version, time of the response), touch included
         call = {'u': u, 'e': e, 'outcome': 'ok'}
         self.calls.append(call)
-        return patched
+        return reported        # what the REAL apply() reports goes to the REAL worker
 
     _entry_counts: dict[int, int] = {}
 
@@ -449,6 +588,21 @@ def cycle_scenarios(r: random.Random, nrandom: int) -> list[tuple[dict, list[tup
             acts += [('W', 100), ('S',), ('M', 0), ('N', 0), ('S',), ('N', 0), ('S',)]
             for script in ([(False, True, 0)], [(False, True, 0), (False, False, 0)], [(False, True, 4), (True, False, 0), (False, False, 0)]):
                 out.append((cfg, acts, script))
+    # the touch-dummy cycle: a delayed handler whose delay is slept in full, PATCH latency, a foreign edit applied and
+    # delivered while the touch request is in flight, the echo of the touch delivered late (or never)
+    for delay8 in (4, 8):
+        for lat8 in (2, 8):
+            for echo8 in (4, 23, 25, None):
+                for nforeign in (1, 2):
+                    acts = [('M', 0), ('N', 0), ('S',), ('W', delay8 + lat8 // 2), ('S',)]
+                    acts += [('M', 0), ('N', 0), ('S',)] * nforeign
+                    acts += [('W', lat8), ('S',)]
+                    if echo8 is not None:
+                        acts += [('W', echo8), ('S',), ('N', 0), ('S',)]
+                    acts += [('W', 60), ('S',), ('N', 0), ('S',), ('N', 0), ('S',)]
+                    # cycle 1: handler runs, no content, delayed -> full sleep -> touch; later cycles: plain
+                    out.append((cfg, acts, [(False, False, 0, delay8, lat8), (False, False, 0, None, 0)]))
+                    out.append((cfg, acts, [(False, True, 0, delay8, lat8), (False, False, 0, None, lat8)]))
     for _ in range(nrandom):
         n = r.randrange(5, 18)
         acts = []
@@ -468,7 +622,8 @@ def cycle_scenarios(r: random.Random, nrandom: int) -> list[tuple[dict, list[tup
             if r.random() < 0.8:
                 acts.append(('S',))
         acts.append(('S',))
-        script = [(r.random() < 0.15, r.random() < 0.6, r.choice([0, 0, 1, 3, 7])) for _ in range(r.randrange(1, 6))]
+        script = [(r.random() < 0.15, r.random() < 0.6, r.choice([0, 0, 1, 3, 7]),
+                   r.choice([None, None, 0, 3, 5, 9]), r.choice([0, 0, 1, 3])) for _ in range(r.randrange(1, 6))]
         c = qd.Config(limit=None, indexed=False, nuids=2, idle=5.0, exit_timeout=2.0, ctimeout=r.choice([3.0, 3.0, 1.0, 0.0])).as_dict()
         out.append((c, acts, script))
     return out
@@ -527,12 +682,15 @@ def run_cycle_case(cfgd: dict, actions: list[tuple], script: list[tuple]) -> dic
         runs = drv.runs_by_uid.get(u, [])
         # ---- the property, read directly: view at least as new as the last own patch, or the timeout elapsed
         for t, view, last in runs:
-            if last is not None and view is not None and int(view) < int(last[0]) and t < last[1] + T - 1e-9:
-                res['fails'].append({'what': "change handlers ran on a view older than the worker's own last patch before its echo "
-                                             'and before the consistency timeout', 'sig': 'stale-view',
-                                     'observed': {'uid': u, 'ran_at': t, 'view_rv': view}, 'expected': {'patched_rv': last[0], 'patched_at': last[1], 'timeout': T}})
             if last is not None:
                 res['nontriv'] = True
+        for t, view, lastw in drv.runs_vs_writes.get(u, []):
+            if lastw is not None and view is not None and T and int(view) < int(lastw[0]) and t < lastw[1] + T - 1e-9:
+                res['fails'].append({'what': "change handlers ran on a view older than the operator's last write observed at the API "
+                                             '(touch-dummy patches included) before its echo and before the consistency timeout',
+                                     'sig': 'stale-view',
+                                     'observed': {'uid': u, 'ran_at': t, 'view_rv': view},
+                                     'expected': {'last_write_rv': lastw[0], 'written_at': lastw[1], 'timeout': T}})
         # ---- the model
         vs = [int(s['rv']) for s in steps if s['rv'] is not None]
         res['stats']['delivered in version order' if vs == sorted(vs) else 'DELIVERED OUT OF ORDER'] += 1
@@ -542,6 +700,8 @@ def run_cycle_case(cfgd: dict, actions: list[tuple], script: list[tuple]) -> dic
         res['stats']['steps with barrier'] += sum(1 for s in steps if s['ct'] is not None)
         res['stats']['waits ended by pressure'] += sum(1 for s in steps if s['press'] is not None and s['ct'] is not None and s['gate_left'] < s['ct'] - 1e-9)
         res['stats']['carried patch'] += sum(1 for s in steps if not s['pie'])
+        res['stats']['PATCH requests via the real apply()'] += len(drv.writes.get(u, []))
+        res['stats']['touch-dummy patches'] += sum(1 for w_ in drv.writes.get(u, []) if w_[2])
         if boundary:
             res['stats']['skipped: event exactly at the deadline'] += 1
             continue
@@ -554,6 +714,8 @@ def run_cycle_case(cfgd: dict, actions: list[tuple], script: list[tuple]) -> dic
         except cq.Unencodable as e:
             res['breaks'].append(f'unencodable observation: {e}')
     res['breaks'] += [b for b in drv.breaks if 'processor entered' not in b and 'two backlog gets' not in b]
+    for m in drv.misreports[:3]:
+        res['breaks'].append(f"apply() reported {m['reported']!r} to the worker, the last write at the API was {m['last_write']!r} (touch={m['touch']})")
     res['stats'] = dict(res['stats'])
     return res
 
@@ -573,6 +735,13 @@ def loop_scenarios(r: random.Random, nrandom: int) -> list[dict]:
                             'index': latency == 0.0})
     for foreign in ([], [0.5], [0.5, 2.0, 3.5]):
         out.append({'lag': 1000.0, 'own_only': True, 'foreign': foreign, 'latency': 0.0, 'status_patch': False})   # the echo never arrives
+    # a delayed (retried) change handler: the delay is slept in full, the touch-dummy patch is sent with API latency,
+    # a foreign edit is applied and delivered while that request is in flight, the echo of the touch lags
+    for delay in (0.5, 1.0):
+        for latency in (0.25, 1.0):
+            for lag in (0.125, 0.25):
+                out.append({'lag': lag, 'own_only': True, 'foreign': [], 'latency': latency, 'status_patch': False,
+                            'touch': {'delay': delay}})
     for _ in range(nrandom):
         out.append({'lag': r.choice([0.0, 0.5, 1.5, 2.875, 3.0, 3.125, 4.0, 9.0]), 'own_only': r.random() < 0.15,
                     'foreign': sorted(r.choice([0.125, 0.25, 0.5, 1.0, 1.5, 2.5, 3.5, 5.0]) for _ in range(r.randrange(0, 4))),
@@ -596,6 +765,16 @@ def run_loop_case(sc: dict) -> dict:
         if sc['status_patch']:
             up['patch'] = {'status': {'seen': {'by': 'up'}}}
         handlers = [{'kind': 'create', 'id': 'cr'}, up, {'kind': 'event', 'id': 'ev'}]
+        if sc.get('touch'):
+            handlers[0] = {'kind': 'create', 'id': 'cr', 'script': [f"temp:{sc['touch']['delay']}", 'ok']}
+            done = {'n': 0}
+
+            def on_request(rq: Any) -> None:
+                if rq.method == 'PATCH' and str(rq.actor).startswith('op:') and 'touch-dummy' in repr(rq.payload) and \
+                        'None' not in repr(rq.payload.get('metadata', {}).get('annotations', {}).get('kopf.zalando.org/touch-dummy', 'x')) and done['n'] < 2:
+                    done['n'] += 1
+                    w.loop.call_later(sc['latency'] / 2, lambda: w.api.merge_edit(fakeapi.KOPFEXAMPLE, 'ns', 'x', {'spec': {'foreign': done['n']}}))
+            w.api.on_request = on_request
         if sc.get('index'):
             handlers.append({'kind': 'index', 'id': 'ix'})
         inc = w.operator('a', handlers, configure=configure).start()
@@ -652,6 +831,8 @@ def run_loop_case(sc: dict) -> dict:
                     res['fails'].append({'what': 'an index handler was delayed (by the consistency barrier)', 'sig': 'index-delayed',
                                          'observed': {'rv': rv, 'delivered_at': td, 'called_at': tc}, 'expected': {'slack': slack}})
             res['index_calls'] = len(ix_calls)
+        res['touches'] = sum(1 for rqs in patches_by_uid.values() for rq in rqs
+                             if isinstance((rq.payload or {}).get('metadata', {}).get('annotations', {}).get('kopf.zalando.org/touch-dummy'), str))
         res['calls'] = len(w.calls)
         res['patches'] = sum(len(v) for v in patches_by_uid.values())
         res['change_calls'] = sum(1 for c in w.calls if c['kind'] in CHANGE_KINDS)
@@ -672,6 +853,16 @@ def _work(job: tuple) -> list[Any]:
         for c in items:
             try:
                 out.append((c, run_gate_case(c)))
+            except qd.ObservationMissing as e:
+                out.append((c, {'error': f'observation point missing: {e}'}))
+            except Exception as e:
+                out.append((c, {'error': f'{type(e).__name__}: {e}'}))
+        return out
+    if kind == 'apply':
+        out = []
+        for c in items:
+            try:
+                out.append((c, run_apply_case(c)))
             except qd.ObservationMissing as e:
                 out.append((c, {'error': f'observation point missing: {e}'}))
             except Exception as e:
@@ -701,7 +892,8 @@ def run(ctx: fw.Ctx) -> int:
     wcases = worker_scenarios(r, ctx.scale(500, 30000))
     lcases = loop_scenarios(r, ctx.scale(60, 1500))
     ccases = cycle_scenarios(r, ctx.scale(400, 20000))
-    jobs = [('gate', ch) for ch in chunks(gcases, 200)] + [('worker', ch) for ch in chunks(wcases, 100)] + \
+    acases = apply_cases()
+    jobs = [('apply', ch) for ch in chunks(acases, 130)] + [('gate', ch) for ch in chunks(gcases, 200)] + [('worker', ch) for ch in chunks(wcases, 100)] + \
            [('loop', ch) for ch in chunks(lcases, 10)] + [('cycle', ch) for ch in chunks(ccases, 100)]
     results: list[tuple[str, Any]] = []
     with concurrent.futures.ProcessPoolExecutor(max_workers=fw.JOBS) as ex:
@@ -712,7 +904,26 @@ def run(ctx: fw.Ctx) -> int:
     Tcases: dict[str, fw.Case] = {}
     Ccases: dict[str, fw.Case] = {}
     nbreak: dict[str, int] = {}
+    A: list[fw.Case] = []
     for kind, x in results:
+        if kind == 'apply':
+            c, obs = x
+            if 'error' in obs:
+                ctx.correspondence_break('D:apply driver', {'case': c, 'detail': obs['error']})
+                continue
+            data = {'family': 'apply', 'case': c}
+
+            def afail(what: str, sig: str, observed: Any = None, expected: Any = None, data: dict = data) -> None:
+                ctx.fail(what, data, observed, expected, sig=sig)
+            apply_monitor(c, obs, afail)
+            term, diag = apply_term(c, obs)
+            A.append(fw.Case(term, {**data, 'observed': {'rv': obs['rv'], 'requests': obs['requests'], 'applied': obs['applied'], 'sleep': obs['sleep']}}, diag=diag))
+            ctx.count('apply', f"requests sent: {len(obs['requests'])}")
+            ctx.count('apply', 'touch sent' if any(q['touch'] for q in obs['requests']) else 'no touch')
+            ctx.count('apply', 'slept' if obs['sleep'] is not None else 'no sleep')
+            if len(obs['requests']) >= 1:
+                ctx.nontriv(['apply', c])
+            continue
         if kind == 'cycle':
             data = {'family': 'cycle', 'cfg': x['cfg'], 'actions': x['actions'], 'script': x['script']}
             for b in x['breaks']:
@@ -775,6 +986,7 @@ def run(ctx: fw.Ctx) -> int:
             for f in x['fails']:
                 ctx.fail(f['what'], data, f['observed'], f['expected'], sig=f['sig'])
             ctx.count('closed_loop', 'runs')
+            ctx.count('closed_loop', 'touch-dummy PATCHes', x.get('touches', 0))
             ctx.count('closed_loop', 'PATCHes by the operator', x.get('patches', 0))
             ctx.count('closed_loop', 'change-handler calls', x.get('change_calls', 0))
             ctx.count('closed_loop', 'index-handler calls checked', x.get('index_calls', 0))
@@ -783,6 +995,8 @@ def run(ctx: fw.Ctx) -> int:
                 ctx.sample({'family': 'closed-loop', **x['case']})
     ctx.cov['exhaustive'] = {'gate': len(gcases)}
     ctx.cov['traces_validated_against_impl'] = len(Tcases)
+    ctx.cov['exhaustive']['apply'] = len(acases)
+    ctx.differential('D_apply', HEADER, A, shard=300)
     ctx.differential('D_gate', HEADER, D, shard=300)
     ctx.differential('T_worker', HEADER, list(Tcases.values()), shard=150)
     ctx.differential('T_cycle', HEADER, list(Ccases.values()), shard=150)
@@ -797,7 +1011,10 @@ def replay(ctx: fw.Ctx, body: dict) -> bool:
     case = body.get('case') or {}
     fam = case.get('family')
     fails: list[dict] = []
-    if fam == 'gate':
+    if fam == 'apply':
+        obs = run_apply_case(case['case'])
+        apply_monitor(case['case'], obs, lambda what, sig, observed=None, expected=None: fails.append({'what': what, 'sig': sig, 'observed': observed}))
+    elif fam == 'gate':
         obs = run_gate_case(case['case'])
         gate_monitor(case['case'], obs, lambda what, sig, observed=None, expected=None: fails.append({'what': what, 'sig': sig, 'observed': observed}))
     elif fam == 'worker':
